@@ -283,6 +283,8 @@ mod tracing;
 mod tracked_struct;
 #[cfg(salsa_rs_salsa_verif)]
 pub mod verif;
+#[cfg(salsa_rs_salsa_verif)]
+pub mod verif_intern;
 mod views;
 mod zalsa;
 mod zalsa_local;
